@@ -581,6 +581,9 @@ func (e *Explorer) runPath(ctx *smt.Ctx, sess *smt.Session, pfx []Decision) {
 			switch r := r.(type) {
 			case pathEnd:
 				status = "ended"
+				if strings.HasPrefix(r.why, "assertion") {
+					status = "asserted-out" // the path reached its assertions; it ends because one of them fails on the whole path
+				}
 			case unsupported:
 				status = "unsupported"
 				unsup = r.msg
@@ -626,7 +629,7 @@ func (e *Explorer) runPath(ctx *smt.Ctx, sess *smt.Session, pfx []Decision) {
 		}
 	}()
 	var wit *Witness
-	if status == "completed" && e.wantWitness() {
+	if status == "completed" && len(p.viol) == 0 && e.wantWitness() {
 		func() {
 			defer func() {
 				if r := recover(); r != nil {
@@ -679,7 +682,7 @@ func (e *Explorer) runPath(ctx *smt.Ctx, sess *smt.Session, pfx []Decision) {
 		rep.Witnesses = append(rep.Witnesses, *wit)
 	}
 	switch status {
-	case "completed", "panic":
+	case "completed", "panic", "asserted-out":
 		rep.Completed++
 	case "ended":
 		rep.Ended++
